@@ -147,12 +147,22 @@ def check_case(case, workdir=None):
         pr.cleanup()
 
 
+def with_origin(origin):
+    def fix(case):
+        case = dict(case)
+        case['spec'] = dict(case['spec'], origin=origin)
+        return case
+    return fix
+
+
 def strata():
     return [gen_cfg.model_and_spec(force=['many_ports'], want_mixed=True),
                      gen_cfg.model_and_spec(want_mc=True),
                      gen_cfg.model_and_spec(force=['injected', 'many_ports']),
                      gen_cfg.model_and_spec(force=['global_enc']),
                      gen_cfg.model_and_spec(force=['no_ports']),
+                     gen_cfg.model_and_spec(force=['api_names', 'deep_ns']).map(with_origin('CREATE')),
+                     gen_cfg.model_and_spec(force=['api_names'], want_mc=True).map(with_origin('IMPORT')),
                      gen_cfg.model_and_spec()]
 
 
